@@ -157,6 +157,23 @@ impl Recorder {
 		std::mem::take(&mut inner.events)
 	}
 
+	/// Take the events, resolving flag pointers that were not known yet when their event was recorded
+	/// (multi-threaded drivers: the task may dequeue a control before the sender has got its ticket
+	/// back; every ticket is kept alive, so pointers are unique).
+	pub fn take_resolving(&self) -> Vec<Ev> {
+		let mut inner = self.inner.lock().unwrap();
+		let flags = std::mem::take(&mut inner.flags);
+		let mut events = std::mem::take(&mut inner.events);
+		for ev in &mut events {
+			if ev.flag != 0 && ev.id == 0 {
+				if let Some(id) = flags.get(&ev.flag) {
+					ev.id = *id;
+				}
+			}
+		}
+		events
+	}
+
 	/// The sink to install for the `cfg(watchexec_verif)` trace points.
 	pub fn sink(&self) -> watchexec_supervisor::verif::Sink {
 		let rec = self.clone();
